@@ -1,11 +1,13 @@
 import SmtpV.Proofs.XtextRT
 import SmtpV.Spec.Codec
+import SmtpV.Proofs.ParamTrip
 /-!
 # C14 — envelope and options survive the client-to-server trip unchanged
 
-Proved: the xtext law on its whole domain.  The utf-8-addr-xtext / unitext laws and the end-to-end
-envelope law are judged on the implementation (rt probe: every Unicode scalar value) and tied by the
-correspondence of all five codec functions; their theorems are work in progress.
+Proved: the xtext law on its whole domain, and the whole trip of the MAIL and RCPT parameters from the client model to the
+server model on the printable-ASCII part of the domain (`Proofs/ParamTrip.lean`).  The utf-8-addr-xtext / unitext laws,
+RRVS times and non-ASCII values are judged on the implementation (rt probe: every Unicode scalar value; e2e probe) and
+tied by the correspondence of all five codec functions.
 -/
 namespace SmtpV.Props.C14
 open SmtpV SmtpV.Xtext
@@ -25,5 +27,43 @@ theorem C14_monitor_model (s : Bytes) (h : Spec.Codec.inDomainX s = true) :
 /-- non-vacuity: TAB, '+', '=', SP, DEL, NUL all survive -/
 example : decodeXtext (encodeXtext [9, 43, 61, 32, 127, 0, 65]) = some [9, 43, 61, 32, 127, 0, 65] := by decide +kernel
 example : encodeXtext [9, 43] = "+09+2B".b := by decide +kernel
+
+/-! ### the whole trip of the parameters, on the models of client and server -/
+
+/-- **C14_tokenise.**  `strings.Fields` applied to the client's parameter string (each parameter preceded by one space)
+    gives back exactly the parameters — any number of them, any printing non-space ASCII content. -/
+theorem C14_tokenise (ts : List Bytes) (hts : ∀ t ∈ ts, t ≠ [] ∧ t.all graphic = true) : Text.fields (spaced ts) = ts :=
+  fields_spaced ts hts
+
+/-- **C14_params_parse.**  The server's `parseArgs` applied to the client's rendering of any list of keyword/value
+    parameters (distinct upper-case keywords, values without space and `=` — what every encoder of the client produces)
+    is exactly that list, in order. -/
+theorem C14_params_parse (ps : List (Bytes × Bytes)) (hps : ∀ p ∈ ps, ParamOk p) (hnd : (ps.map (·.1)).Nodup) :
+    Parse.parseArgs (spaced (ps.map renderParam)) = some ps := parseArgs_spaced ps hps hnd
+
+/-- **C14_mail_options_trip.**  Every `MailOptions` value of the printable-ASCII domain (BODY unset/7BIT/8BITMIME/
+    BINARYMIME, SIZE below 2^32, REQUIRETLS, SMTPUTF8, RET unset/FULL/HDRS, any printable-ASCII ENVID, AUTH unset / `<>` /
+    any dot-string mailbox) — every combination of them — written by the client model and read by the server model
+    (tokeniser, parameter parser, parameter switch with its decoders) arrives as exactly the same options. -/
+theorem C14_mail_options_trip (ext : List (Bytes × Bytes)) (cfg : Spec.Cfg) (o : Client.MailOptions)
+    (he : AllExt ext) (hc : CfgOn cfg o) (hd : MailDomain o) :
+    ∃ ps, Client.mailParams ext (some o) = some ps ∧
+      ∃ args, Parse.parseArgs ps = some args ∧
+        Server.mailParams cfg args {} false = .ok (expected o, (expected o).body == "BINARYMIME".b) :=
+  mail_options_trip ext cfg o he hc hd
+
+/-- **C14_rcpt_options_trip.**  The same for RCPT: every valid NOTIFY set and every printable-ASCII rfc822 original
+    recipient, alone or together. -/
+theorem C14_rcpt_options_trip (ext : List (Bytes × Bytes)) (cfg : Spec.Cfg) (o : Client.RcptOptions)
+    (he : Client.hasExt ext "DSN" = true) (hc : cfg.dsn = true) (hd : RcptDomain o) :
+    ∃ ps, Client.rcptParams ext o = some ps ∧
+      ∃ args, Parse.parseArgs ps = some args ∧ Server.rcptParams cfg args {} = .ok (expectedRcpt o) :=
+  rcpt_options_trip ext cfg o he hc hd
+
+/-- non-vacuity: a concrete option set of the domain, and what it looks like on the wire -/
+example : Client.mailParams [("8BITMIME".b, []), ("BINARYMIME".b, []), ("SIZE".b, []), ("REQUIRETLS".b, []),
+      ("SMTPUTF8".b, []), ("DSN".b, []), ("AUTH".b, "PLAIN".b)]
+    (some { size := 42, utf8 := true, ret := "HDRS".b, envid := "a+b =c".b, auth := some "u@d".b }) =
+    some " BODY=8BITMIME SIZE=42 SMTPUTF8 RET=HDRS ENVID=a+2Bb+20+3Dc AUTH=u@d".b := by decide +kernel
 
 end SmtpV.Props.C14
